@@ -207,6 +207,8 @@ func implC04(line string) string {
 		return implEarly(f)
 	case "earlyfn":
 		return implEarlyFn(f)
+	case "earlyfs":
+		return implEarlyFs(f)
 	case "early2":
 		return implEarly2(f)
 	case "resv":
